@@ -199,7 +199,7 @@ fn admissible(p: &Params) -> bool {
     // bounded work: at most 20k ticks per span; playable ranges only
     let len = p.total.min(100_000.0);
     let td = p.tick_dist.clamp(0.0, len.max(0.0));
-    p.start.is_finite() && p.dur.is_finite() && p.dur > 0.0 && p.vel.is_finite() && p.vel > 0.0 && p.total.is_finite() && p.total >= 0.0 && !p.tick_dist.is_nan() && p.tick_dist >= 0.0 && (td == 0.0 || len / td <= 20_000.0) && p.spans >= 1 && f64::from(p.spans) * (if td == 0.0 { 1.0 } else { (len / td).max(1.0) }) <= 300_000.0
+    p.start.is_finite() && p.dur.is_finite() && p.dur >= 0.0 && p.vel.is_finite() && p.vel >= 0.0 && p.total.is_finite() && p.total >= 0.0 && !p.tick_dist.is_nan() && p.tick_dist >= 0.0 && (td == 0.0 || len / td <= 20_000.0) && p.spans >= 1 && f64::from(p.spans) * (if td == 0.0 { 1.0 } else { (len / td).max(1.0) }) <= 300_000.0
 }
 
 /// `nth`, `last`, `count`, `size_hint` and behaviour after exhaustion must agree with the stream seen through `next`.
@@ -301,7 +301,10 @@ fn gen_params(rng: &mut Rng) -> [f64; 6] {
         }
     }
     let dur = if total > 0.0 { total / vel * (0.9 + 0.2 * rng.unit()) } else { 1.0 + 100.0 * rng.unit() };
-    let start = *rng.pick(&[0.0, 1000.0, -500.0, 123_456.789]);
+    let start = *rng.pick(&[0.0, 1000.0, -500.0, 123_456.789, 0.0, 1000.0, 9_007_199_254_740_992.0, 1e17]);
+    // rarely: nothing travels (velocity 0) or a span takes no time (every event of the span shares one timestamp)
+    let vel = if rng.chance(1, 40) { 0.0 } else { vel };
+    let dur = if rng.chance(1, 40) { 0.0 } else if vel == 0.0 { 100.0 + 400.0 * rng.unit() } else { dur };
     [start, dur, vel, td, total, spans]
 }
 
